@@ -887,4 +887,244 @@ theorem processMask_eq (c : Cfg) (re : Oracle) (value : Bytes) (fm : Option FMNo
           simp [r1.cur, this]
       · simp [r1.effs, r1.counts, r1.app]
 
+
+/-! ### the (repaired) field-masks tree means "a listed path covers its subtree" -/
+
+/-- the node for a child `k` of a node that has `n` (repaired code) -/
+def fmStep (n : FMNode) (k : Bytes) : FMNode := if !n.hasChildren then n else n.residual true k
+
+/-- the node traverseTree holds when it stands at `path` -/
+def fmAt (c : Cfg) (path : List Bytes) : Option FMNode := c.fmRoot.map (fun n => path.foldl fmStep n)
+
+theorem residual_any (t : Tag) (k : Bytes) (q : List Bytes) : ∀ n : FMNode,
+    (n.residual true k).any (fun e => e.2 == t && e.1.isPrefixOf q)
+      = n.any (fun e => e.2 == t && e.1.isPrefixOf (k :: q))
+  | [] => rfl
+  | (k' :: rest, t') :: es => by
+    unfold FMNode.residual
+    by_cases h : k' = k
+    · subst h
+      simp [residual_any t k' q es, List.isPrefixOf]
+    · have : (k' == k) = false := by simpa using h
+      simp [h, residual_any t k q es, List.isPrefixOf, this]
+  | ([], t') :: es => by
+    unfold FMNode.residual
+    simp [residual_any t k q es, List.isPrefixOf]
+
+theorem noChildren_any (t : Tag) (q : List Bytes) : ∀ n : FMNode, n.hasChildren = false →
+    n.any (fun e => e.2 == t && e.1.isPrefixOf q) = n.has t
+  | [], _ => rfl
+  | (p, t') :: es, h => by
+    unfold FMNode.hasChildren at h
+    simp only [List.any_cons, Bool.or_eq_false_iff] at h
+    have hp : p = [] := by
+      cases p with
+      | nil => rfl
+      | cons _ _ => simp at h
+    subst hp
+    have ih := noChildren_any t q es (by unfold FMNode.hasChildren; exact h.2)
+    unfold FMNode.has at ih ⊢
+    simp only [List.any_cons, ih, List.isPrefixOf, List.isEmpty_nil, Bool.and_true, Bool.true_and]
+
+theorem has_nil (t : Tag) (n : FMNode) : n.has t = n.any (fun e => e.2 == t && e.1.isPrefixOf []) := by
+  unfold FMNode.has
+  congr 1
+  funext e
+  cases e.1 <;> simp [List.isPrefixOf, Bool.and_comm]
+
+/-- a flag is set on the node reached along `q` iff a list entry with that flag is a prefix of `q` -/
+theorem has_walk (t : Tag) : ∀ (q : List Bytes) (n : FMNode),
+    (q.foldl fmStep n).has t = n.any (fun e => e.2 == t && e.1.isPrefixOf q)
+  | [], n => has_nil t n
+  | k :: q, n => by
+    simp only [List.foldl_cons]
+    by_cases hc : n.hasChildren
+    · have e1 : fmStep n k = n.residual true k := by simp [fmStep, hc]
+      rw [e1, has_walk t q, residual_any]
+    · have hc' : n.hasChildren = false := by simpa using hc
+      have e1 : ∀ k', fmStep n k' = n := by intro k'; simp [fmStep, hc']
+      have : ∀ q' : List Bytes, (q'.foldl fmStep n) = n := by
+        intro q'
+        induction q' with
+        | nil => rfl
+        | cons k' q' ih => simp only [List.foldl_cons, e1, ih]
+      rw [e1, this q, noChildren_any t _ n hc']
+
+
+/-- "an entry with flag `t` is a prefix of `q`" -/
+def hit (t : Tag) (q : List Bytes) (e : List Bytes × Tag) : Bool := e.2 == t && e.1.isPrefixOf q
+
+theorem any_map_tag (t t' : Tag) (q : List Bytes) (ps : List (List Bytes)) :
+    (ps.map (fun p => (p, t'))).any (hit t q) = ((t' == t) && covers ps q) := by
+  unfold covers hit
+  rw [List.any_map]
+  induction ps with
+  | nil => simp
+  | cons p ps ih =>
+    simp only [List.any_cons, Function.comp] at ih ⊢
+    rw [ih]
+    cases (t' == t) <;> simp
+
+def pick (ms : List MaskCfg) (k i : Nat) : Option MaskCfg := if k ≤ i then ms[i - k]? else none
+
+theorem pick_cons (m : MaskCfg) (ms : List MaskCfg) (k i : Nat) :
+    pick (m :: ms) k i = if k = i then some m else pick ms (k + 1) i := by
+  unfold pick
+  by_cases h1 : k = i
+  · subst h1; simp
+  · by_cases h2 : k ≤ i
+    · have h3 : k + 1 ≤ i := by omega
+      have : i - k = (i - (k + 1)) + 1 := by omega
+      simp [h1, h2, h3, this]
+    · have h3 : ¬ k + 1 ≤ i := by omega
+      simp [h1, h2, h3]
+
+theorem pick_succ_self (ms : List MaskCfg) (k : Nat) : pick ms (k + 1) k = none := by
+  have : ¬ k + 1 ≤ k := by omega
+  simp [pick, this]
+
+theorem head_any (t : Tag) (q : List Bytes) (m : MaskCfg) (k : Nat) :
+    (if m.fkind == 1 then m.paths.map (fun p => (p, Tag.ignoreMask k))
+     else if m.fkind == 2 then m.paths.map (fun p => (p, Tag.processMask k))
+     else []).any (hit t q)
+    = ((m.fkind == 1 && (Tag.ignoreMask k == t) && covers m.paths q) ||
+       (m.fkind == 2 && (Tag.processMask k == t) && covers m.paths q)) := by
+  by_cases h1 : m.fkind == 1
+  · have h2 : (m.fkind == 2) = false := by
+      have : m.fkind = 1 := by simpa using h1
+      simp [this]
+    rw [if_pos h1, any_map_tag, h1, h2]; simp
+  · have h1' : (m.fkind == 1) = false := by simpa using h1
+    by_cases h2 : m.fkind == 2
+    · rw [if_neg h1, if_pos h2, any_map_tag, h1', h2]; simp
+    · have h2' : (m.fkind == 2) = false := by simpa using h2
+      rw [if_neg h1, if_neg h2, h1', h2']; simp
+
+theorem any_ignore (i : Nat) (q : List Bytes) : ∀ (ms : List MaskCfg) (k : Nat),
+    (Cfg.maskEntries k ms).any (hit (.ignoreMask i) q)
+      = match pick ms k i with
+        | some m => m.fkind == 1 && covers m.paths q
+        | none => false
+  | [], k => by simp [Cfg.maskEntries, pick]
+  | m :: ms, k => by
+    rw [Cfg.maskEntries, List.any_append, any_ignore i q ms (k + 1), pick_cons, head_any]
+    have e2 : (Tag.processMask k == Tag.ignoreMask i) = false := by rfl
+    by_cases hk : k = i
+    · subst hk
+      have e1 : (Tag.ignoreMask k == Tag.ignoreMask k) = true := by simp
+      simp [pick_succ_self, e1, e2]
+    · have e1 : (Tag.ignoreMask k == Tag.ignoreMask i) = false := by simp [hk]
+      simp [hk, e1, e2]
+
+theorem any_process (i : Nat) (q : List Bytes) : ∀ (ms : List MaskCfg) (k : Nat),
+    (Cfg.maskEntries k ms).any (hit (.processMask i) q)
+      = match pick ms k i with
+        | some m => m.fkind == 2 && covers m.paths q
+        | none => false
+  | [], k => by simp [Cfg.maskEntries, pick]
+  | m :: ms, k => by
+    rw [Cfg.maskEntries, List.any_append, any_process i q ms (k + 1), pick_cons, head_any]
+    have e2 : (Tag.ignoreMask k == Tag.processMask i) = false := by rfl
+    by_cases hk : k = i
+    · subst hk
+      have e1 : (Tag.processMask k == Tag.processMask k) = true := by simp
+      simp [pick_succ_self, e1, e2]
+    · have e1 : (Tag.processMask k == Tag.processMask i) = false := by simp [hk]
+      simp [hk, e1, e2]
+
+theorem any_global (t : Tag) (ht : t = .globalIgnore ∨ t = .globalProcess) (q : List Bytes) :
+    ∀ (ms : List MaskCfg) (k : Nat), (Cfg.maskEntries k ms).any (hit t q) = false
+  | [], k => by simp [Cfg.maskEntries]
+  | m :: ms, k => by
+    rw [Cfg.maskEntries, List.any_append, any_global t ht q ms (k + 1), head_any]
+    have e1 : (Tag.ignoreMask k == t) = false := by rcases ht with rfl | rfl <;> rfl
+    have e2 : (Tag.processMask k == t) = false := by rcases ht with rfl | rfl <;> rfl
+    simp [e1, e2]
+
+
+@[simp] theorem tag_gi_im (i : Nat) : (Tag.globalIgnore == Tag.ignoreMask i) = false := rfl
+@[simp] theorem tag_gp_im (i : Nat) : (Tag.globalProcess == Tag.ignoreMask i) = false := rfl
+@[simp] theorem tag_gi_pm (i : Nat) : (Tag.globalIgnore == Tag.processMask i) = false := rfl
+@[simp] theorem tag_gp_pm (i : Nat) : (Tag.globalProcess == Tag.processMask i) = false := rfl
+@[simp] theorem tag_gi_gp : (Tag.globalIgnore == Tag.globalProcess) = false := rfl
+@[simp] theorem tag_gp_gi : (Tag.globalProcess == Tag.globalIgnore) = false := rfl
+
+theorem cond_any (b : Bool) (t t' : Tag) (q : List Bytes) (ps : List (List Bytes)) :
+    (if b then ps.map (fun p => (p, t')) else []).any (hit t q) = (b && (t' == t) && covers ps q) := by
+  cases b
+  · simp
+  · simp only [↓reduceIte, any_map_tag, Bool.true_and]
+
+theorem pick_zero (ms : List MaskCfg) (i : Nat) : pick ms 0 i = ms[i]? := by simp [pick]
+
+/-- the flags of the node traverseTree holds at `path`, read off the configured lists -/
+theorem has_fmAt (c : Cfg) (path : List Bytes) (n : FMNode) (h : fmAt c path = some n) (t : Tag) :
+    n.has t =
+      ((Cfg.maskEntries 0 c.masks).any (hit t path) ||
+        (c.hasGlobalIgnore && (Tag.globalIgnore == t) && covers c.gpaths path) ||
+        (c.hasGlobalProcess && (Tag.globalProcess == t) && covers c.gpaths path)) := by
+  unfold fmAt Cfg.fmRoot at h
+  by_cases hp : c.hasProcessOrIgnore
+  · simp only [hp, Bool.not_true, Bool.false_eq_true, ↓reduceIte, Option.map_some, Option.some.injEq] at h
+    subst h
+    rw [has_walk]
+    show List.any _ (hit t path) = _
+    rw [List.any_append, List.any_append, cond_any, cond_any]
+  · simp [hp] at h
+
+theorem globalsUsed_of (c : Cfg) (m : MaskCfg) (hm : m ∈ c.masks)
+    (h1 : (m.fkind == 1) = false) (h2 : (m.fkind == 2) = false) : c.globalsUsed = true := by
+  unfold Cfg.globalsUsed
+  simp only [Bool.not_eq_true', List.all_eq_false]
+  exact ⟨m, hm, by simp [h1, h2]⟩
+
+/-- **the repaired field-masks tree implements the documented meaning of the lists**: at the
+    node for `path`, mask `i` is left exactly when the spec's prefix semantics leaves it -/
+theorem eligible_eq (c : Cfg) (path : List Bytes) (i : Nat) (m : MaskCfg) (hm : c.masks[i]? = some m) :
+    eligible c (fmAt c path) i m = pathEligible c m path := by
+  have hmem : m ∈ c.masks := List.mem_of_getElem? hm
+  unfold eligible pathEligible
+  by_cases hp : c.hasProcessOrIgnore
+  · have hsome : ∃ n, fmAt c path = some n := by
+      unfold fmAt Cfg.fmRoot; simp [hp]
+    obtain ⟨n, hn⟩ := hsome
+    have hh := has_fmAt c path n hn
+    rw [hn]
+    simp only [hp, Bool.not_true, Bool.false_eq_true, ↓reduceIte]
+    by_cases h1 : m.fkind == 1
+    · simp only [h1, ↓reduceIte]
+      rw [hh, any_ignore, pick_zero, hm]
+      simp [h1]
+    · have h1' : (m.fkind == 1) = false := by simpa using h1
+      by_cases h2 : m.fkind == 2
+      · simp only [h1', h2, Bool.false_eq_true, ↓reduceIte]
+        rw [hh, any_process, pick_zero, hm]
+        simp [h2]
+      · have h2' : (m.fkind == 2) = false := by simpa using h2
+        have hg := globalsUsed_of c m hmem h1' h2'
+        simp only [h1', h2', Bool.false_eq_true, ↓reduceIte, Cfg.hasGlobalIgnore, Cfg.hasGlobalProcess, hg,
+          Bool.true_and]
+        by_cases g1 : c.gkind == 1
+        · simp only [g1, ↓reduceIte]
+          rw [hh, any_global _ (Or.inl rfl)]
+          simp [Cfg.hasGlobalIgnore, hg, g1]
+        · have g1' : (c.gkind == 1) = false := by simpa using g1
+          by_cases g2 : c.gkind == 2
+          · simp only [g1', g2, Bool.false_eq_true, ↓reduceIte]
+            rw [hh, any_global _ (Or.inr rfl)]
+            simp [Cfg.hasGlobalProcess, hg, g2]
+          · simp [g1', g2]
+  · have hp' : c.hasProcessOrIgnore = false := by simpa using hp
+    simp only [hp', Bool.not_false, ↓reduceIte]
+    unfold Cfg.hasProcessOrIgnore at hp'
+    simp only [Bool.or_eq_false_iff] at hp'
+    obtain ⟨⟨hs, hgi⟩, hgp⟩ := hp'
+    unfold Cfg.hasMaskSpecific at hs
+    have hm0 := (List.any_eq_false.mp hs) m hmem
+    simp only [Bool.or_eq_true, not_or, Bool.not_eq_true] at hm0
+    have hg := globalsUsed_of c m hmem hm0.1 hm0.2
+    simp only [Cfg.hasGlobalIgnore, hg, Bool.true_and] at hgi
+    simp only [Cfg.hasGlobalProcess, hg, Bool.true_and] at hgp
+    simp [hm0.1, hm0.2, hgi, hgp]
+
 end FileD.MaskLemmas
